@@ -255,6 +255,10 @@ def ledger_episode(ctx, props, chain=False, discrete=False, prebuilt=None):
                 ctx.violation("C07:one-entry-per-decision", rebalances=k + 1, entries=len(trk))
                 break
             rb = trk[k]
+            if C08:
+                # the execution happens AFTER the quotes in (t, t+latency] were applied: it carries their time
+                ctx.check("C08:execution-after-latent-quotes", rb.time == last_m and all(t_.time == last_m for t_ in rb.trades),
+                          stamp=rb.time, latest_applied=last_m, k=k)
             if C07:
                 ctx.check("C07:stamp-latest-event", rb.time == last_m and rb.time == x[2], stamp=rb.time, latest=last_m, k=k)
                 # interest on the cash balance read just before this rebalance
